@@ -347,9 +347,31 @@ func suiteC20(c *ctx) {
 		if i%7 == 3 {
 			// the same on a reused writer: an abandoned (unflushed, unclosed) or closed first stream, Reset
 			wc.Datas = append(wc.Datas, DataSpec{Gen: r.PickS([]string{"text", "rnd", "uni3"}), Seed: r.U64(), N: 140000})
+			if r.Bool() {
+				// a small stream over a different alphabet after an abandoned stream that filled the
+				// buffer without emitting a block (what is left behind must not shape the new codes)
+				small := DataSpec{Gen: r.PickS([]string{"uni4", "uni6", "text", "rnd"}), Seed: r.U64(), N: r.Range(1500, 6000)}
+				wc.Datas[0] = small
+				wc.Ops = []Op{{K: "w", N: small.N}, {K: "c"}}
+				p = 0
+			}
 			pre := []Op{{K: "w", N: r.Pick([]int{500, 8450, 9000, 65794, 70000, 140000}), Src: 1}}
 			if r.Intn(3) == 0 {
 				pre = append(pre, Op{K: "c"})
+			}
+			if i%14 == 3 {
+				// abandoned first stream = one buffer fill of skewed/compressible data (pending tokens, no
+				// block emitted yet), then random bytes
+				wc.Datas[0] = DataSpec{Gen: "rnd", Seed: r.U64(), N: r.Range(1500, 6000)}
+				wc.Ops = []Op{{K: "w", N: wc.Datas[0].N}, {K: "c"}}
+				p = 0
+				if s.Win4K {
+					wc.Datas[1] = DataSpec{Gen: r.PickS([]string{"fib", "text"}), Seed: r.U64(), N: 9000}
+					pre = []Op{{K: "w", N: r.Range(8450, 8700), Src: 1}}
+				} else {
+					wc.Datas[1] = DataSpec{Gen: "text", Seed: r.U64(), N: 70000}
+					pre = []Op{{K: "w", N: r.Range(65794, 66500), Src: 1}}
+				}
 			}
 			wc.Ops = append(append(pre, Op{K: "r"}), wc.Ops...)
 		}
